@@ -148,6 +148,19 @@ func (u *Unit) eval(env *Env, e *Expr) Val {
 		c := u.evalBool(env, e.Args[0])
 		a, b := u.eval(env, e.Args[1]), u.eval(env, e.Args[2])
 		return u.mergeVals(c, a, b)
+	case "index":
+		base := u.eval(env, e.Args[0])
+		k := u.evalTerm(env, e.Args[1])
+		if mv, ok := base.(*MapV); ok {
+			v, _ := u.mapLookup(env.st, mv, k)
+			et := types.Type(types.Typ[types.Int])
+			if mt, ok := mv.Typ.Underlying().(*types.Map); ok {
+				et = mt.Elem()
+			}
+			return &Scalar{T: v, Typ: et}
+		}
+		u.note("indexing a non-map in a contract expression")
+		return &Scalar{T: u.fresh(SInt, "noindex"), Typ: types.Typ[types.Int]}
 	case "bin":
 		return u.evalBin(env, e)
 	case "call":
@@ -448,6 +461,14 @@ func (u *Unit) evalCall(env *Env, e *Expr) Val {
 		return &Scalar{T: u.catalogueMember(u.evalTerm(env, args[0]), "conflict"), Typ: types.Typ[types.Bool]}
 	case "NatsTransient":
 		return &Scalar{T: u.catalogueMember(u.evalTerm(env, args[0]), "transient"), Typ: types.Typ[types.Bool]}
+	case "has":
+		base := u.eval(env, args[0])
+		k := u.evalTerm(env, args[1])
+		if mv, ok := base.(*MapV); ok {
+			_, h := u.mapLookup(env.st, mv, k)
+			return &Scalar{T: h, Typ: types.Typ[types.Bool]}
+		}
+		return &Scalar{T: TFalse, Typ: types.Typ[types.Bool]}
 	case "inonce":
 		return &Scalar{T: BoolLit(u.onceDepth > 0), Typ: types.Typ[types.Bool]}
 	case "inspawn":
